@@ -436,8 +436,24 @@ func c11ConnCase(t c11TB, s c11Src, st *vstats.Collector, maxSteps int) (
 				if mode == c11ConnReadStream && len(dd.pending) > 0 {
 					seen["read:stream"] = true
 				}
+				// The wire may arrive in small segments.
+				seg := 0
+				switch s.Int("segCls", 0, 3) {
+				case 1:
+					seg = 1 + s.Int("seg", 0, 40)
+				case 2:
+					seg = 41 + s.Int("seg", 0, 3000)
+				}
+				if pendingBytes > 20000 && seg > 0 && seg < 64 {
+					seg += 64
+				}
+				if seg > 0 && len(dd.pending) > 0 {
+					seen["read:segmented"] = true
+				}
+				dd.rp.SetReadChunk(seg)
 				dd.drain(t, mode, bufSize, st)
-				fp = append(fp, fmt.Sprintf("r%d.%d|", mode, bufSize)...)
+				dd.rp.SetReadChunk(0)
+				fp = append(fp, fmt.Sprintf("r%d.%d.%d|", mode, bufSize, seg)...)
 			}
 		}
 	}
